@@ -42,11 +42,12 @@ func (t *tailWriter) Write(p []byte) (int, error) {
 }
 
 type c13History struct {
-	name  string
-	keyed bool
-	big   bool                 // multi-frame snapshot (thorough)
-	build func(w *model.World) // history before the snapshot
-	tail  [][]model.Act        // transactions committed while the snapshot is being written
+	name   string
+	keyed  bool
+	big    bool // multi-frame snapshot: frame boundaries +-2 and every 997th (coarse: 9973rd) byte
+	coarse bool
+	build  func(w *model.World) // history before the snapshot
+	tail   [][]model.Act        // transactions committed while the snapshot is being written
 }
 
 type c13Built struct {
@@ -111,7 +112,11 @@ func (h c13History) prepare() (*c13Built, error) {
 				b.points = append(b.points, i)
 			}
 		}
-		for i := 0; i <= n; i += 997 {
+		step := 997
+		if h.coarse {
+			step = 9973
+		}
+		for i := 0; i <= n; i += step {
 			add(i)
 		}
 		for _, fb := range s2FrameBoundaries(b.data) {
@@ -241,7 +246,7 @@ func c13Histories(tier string) []c13History {
 			{{Op: "deletekey", Key: "a"}},
 			{{Op: "upsertkey", Key: "s0", W: []model.Write{W("n", V(5))}}}}},
 	}
-	if tier != "quick" {
+	{
 		bigRows := func(w *model.World) {
 			var acts []model.Act
 			for i := 0; i < 48; i++ {
@@ -250,7 +255,7 @@ func c13Histories(tier string) []c13History {
 			}
 			w.Txn(acts, false)
 		}
-		hs = append(hs, c13History{name: "multi-frame/tail-2", big: true, build: bigRows, tail: [][]model.Act{
+		hs = append(hs, c13History{name: "multi-frame/tail-2", big: true, coarse: tier == "quick", build: bigRows, tail: [][]model.Act{
 			{{Op: "put", Off: 0, W: []model.Write{W("s", S(noise(60000, 99)))}}},
 			{{Op: "del", Off: 1}}}})
 	}
